@@ -18,10 +18,11 @@ for it in r['items']:
     for p in exp:
         if p in it['detail']: first = it['detail'][p]; break
     first = re.sub(r'\s+', ' ', first).replace('|', '/')[:170]
-    status = '' if it['ok'] else ' **(not reported)**'
+    status = ' **(known miss, §23)**' if it.get('known_miss') else ('' if it['ok'] else ' **(not reported)**')
     rows.append(f"| {it['name']}{status} | {it['kind']} | {','.join(exp) or '—'} | {','.join(it['violation']) or '—'} | {','.join(it['inconclusive']) or '—'} | {first} |")
 tot = len(r['items']); bad = [i['name'] for i in r['items'] if not i['ok']]
-head = f"{tot} corpus items x {len(r['claimed'])} checks; not as expected: {bad or 'none'}.\n\n"
+km = [i['name'] for i in r['items'] if i.get('known_miss')]
+head = f"{tot} corpus items x {len(r['claimed'])} checks; not as expected: {bad or 'none'}" + (f"; recorded limits (neither reported nor undecided, selftest/known_misses.json): {km}" if km else '') + ".\n\n"
 md = head + '\n'.join(rows) + '\n'
 p = os.path.join(V, 'DESIGN.md')
 s = open(p).read()
